@@ -5,6 +5,8 @@
 package main
 
 import (
+	"bytes"
+	"crypto/sha256"
 	"encoding/json"
 	"flag"
 	"fmt"
@@ -133,6 +135,13 @@ func buildOverlay(tag string) (map[string][]byte, map[string]string, error) {
 	if err != nil {
 		return nil, nil, err
 	}
+	// schema literals: generated from <repo>/tests/schema by the real schema-server library; the
+	// committed file records the hash of the YANG it was made from - regenerate when that changed
+	gen := filepath.Join(verifDir, ".work", "gen-"+tag)
+	os.MkdirAll(gen, 0755)
+	if err := refreshSchemaLiterals(gen, ov, real); err != nil {
+		return nil, nil, err
+	}
 	// verifrt
 	rtSrc := filepath.Join(verifDir, "verifrt", "verifrt.go")
 	b, err := os.ReadFile(rtSrc)
@@ -143,8 +152,6 @@ func buildOverlay(tag string) (map[string][]byte, map[string]string, error) {
 	ov[virt] = b
 	real[virt] = rtSrc
 	// generated replay tests
-	gen := filepath.Join(verifDir, ".work", "gen-"+tag)
-	os.MkdirAll(gen, 0755)
 	for dir, funcs := range perPkg {
 		if dir == "pkg/verifrt" {
 			continue
@@ -166,6 +173,69 @@ func buildOverlay(tag string) (map[string][]byte, map[string]string, error) {
 		// not in ov: _test files are not loaded for symbolic execution
 	}
 	return ov, real, nil
+}
+
+// yangSourceHash mirrors tools/schemagen sourceHash.
+func yangSourceHash(dir string) string {
+	h := sha256.New()
+	files, _ := filepath.Glob(filepath.Join(dir, "*.yang"))
+	sort.Strings(files)
+	for _, f := range files {
+		b, err := os.ReadFile(f)
+		if err != nil {
+			return "unreadable"
+		}
+		fmt.Fprintf(h, "%s\n%d\n", filepath.Base(f), len(b))
+		h.Write(b)
+	}
+	return fmt.Sprintf("%x", h.Sum(nil))
+}
+
+var schemaRegenerated string // "" = committed literals are current
+
+func refreshSchemaLiterals(gen string, ov map[string][]byte, real map[string]string) error {
+	virt := filepath.Join(repoDir, "pkg", "verifschema", "zz_verif_schema_gen.go")
+	cur, ok := ov[virt]
+	if !ok {
+		return nil
+	}
+	want := yangSourceHash(filepath.Join(repoDir, "tests", "schema"))
+	if m := regexp.MustCompile(`(?m)^// source-sha256: ([0-9a-f]+)$`).FindSubmatch(cur); m != nil && string(m[1]) == want {
+		return nil
+	}
+	// regenerate with the repository's own module and dependencies
+	ovf := filepath.Join(gen, "schemagen-overlay.json")
+	src := filepath.Join(verifDir, "tools", "schemagen", "main.go")
+	j, _ := json.Marshal(map[string]any{"Replace": map[string]string{filepath.Join(repoDir, "zz_verif_schemagen", "main.go"): src}})
+	if err := os.WriteFile(ovf, j, 0644); err != nil {
+		return err
+	}
+	cmd := exec.Command("go", "run", "-tags", "verif", "-overlay", ovf, "./zz_verif_schemagen", filepath.Join(repoDir, "tests", "schema"))
+	cmd.Dir = repoDir
+	cmd.Env = append(os.Environ(), "GOFLAGS=-mod=mod", "GOPROXY=off", "GOSUMDB=off", "GOTOOLCHAIN=local")
+	var stderr bytes.Buffer
+	cmd.Stderr = &stderr
+	out, err := cmd.Output()
+	if err != nil {
+		return fmt.Errorf("tests/schema changed and the schema literals cannot be regenerated: %v: %s", err, lastLines(stderr.String(), 5))
+	}
+	gp := filepath.Join(gen, "zz_verif_schema_gen.go")
+	if err := os.WriteFile(gp, out, 0644); err != nil {
+		return err
+	}
+	ov[virt] = out
+	real[virt] = gp
+	schemaRegenerated = want
+	fmt.Fprintf(os.Stderr, "note: %s/tests/schema differs from the YANG the committed schema literals were generated from; regenerated (sha256 %s)\n", repoDir, want[:12])
+	return nil
+}
+
+func lastLines(s string, n int) string {
+	ls := strings.Split(strings.TrimSpace(s), "\n")
+	if len(ls) > n {
+		ls = ls[len(ls)-n:]
+	}
+	return strings.Join(ls, " | ")
 }
 
 // ---------------------------------------------------------------- check
@@ -545,6 +615,11 @@ func cmdCheck(id, tier string) int {
 	ev["level"] = level
 	ev["coverage"] = cov
 	ev["assumptions"] = cfg.Assumptions
+	if schemaRegenerated != "" {
+		ev["schema_literals"] = "regenerated on this run from " + repoDir + "/tests/schema (sha256 " + schemaRegenerated + "), which differs from the YANG the committed literals were made from"
+	} else {
+		ev["schema_literals"] = "committed literals are current: sha256 of " + repoDir + "/tests/schema/*.yang matches the recorded source hash"
+	}
 	ev["wall_s"] = round(time.Since(t0).Seconds())
 	ev["violations"] = len(violations)
 	os.MkdirAll(filepath.Join(verifDir, "evidence"), 0755)
